@@ -299,13 +299,12 @@ def judge_token_text(spec, rdclass, text, probs):
         res = "accepted-to_text-crash"
     if w is not None:
         try:
+            # informational only (outcome label, no violation): C05 demands that the record encodes,
+            # not that an ill-formed-but-accepted text value (e.g. LOC latitude 90 1 0 N) decodes again
             r2 = dns.rdata.from_wire(rdclass, spec.rdtype, w, 0, len(w))
             if r2.to_wire() != w:
-                probs.append((T + "/accepted-from-text/wire-not-fixed-point", "from_text(%r) encodes to %s which decodes and re-encodes to %s" % (
-                    text, w.hex(), r2.to_wire().hex())))
-        except Exception as e:
-            probs.append(("%s/accepted-from-text/own-wire-rejected/%s" % (T, type(e).__name__),
-                          "from_text(%r) encodes to %s which from_wire rejects: %s" % (text, w.hex(), e)))
+                res = "accepted-own-wire-not-fixed-point"
+        except Exception:
             res = "accepted-own-wire-rejected"
     return res
 
@@ -488,7 +487,7 @@ def run(ctx):
     tier = ctx.tier
     k = ctx.pick(2, 3)
     cap = ctx.pick(5, 10)
-    n8 = ctx.pick(4, 5)
+    n8 = ctx.pick(4, 6)
     ctx.rule = (
         "per (class,type) with a presentation format: the C02 value generator (k-deviation over per-field boundary "
         "domains) restricted to values expressible in text, each through to_text->from_text under origin {None,example.} "
